@@ -2,6 +2,7 @@ import TextxVerif.Proofs.RrelComplete
 import TextxVerif.Proofs.RrelPath
 import TextxVerif.Proofs.RrelFuel
 import TextxVerif.Proofs.RrelTerm
+import TextxVerif.RrelProvider
 /-!
 # C11 — RREL reference resolution follows the documented expression semantics
 
@@ -130,6 +131,60 @@ theorem C11_split (text sep : String) : ∀ p ∈ splitName text sep, p ≠ "" :
   simp only [splitName, List.mem_filter, decide_eq_true_eq] at hp
   exact hp.2
 
+/-! ## the provider object and histories of references
+
+`C11_sound` … `C11_split` speak about one query.  A scope provider object (an RREL
+expression written in the grammar, or registered for `*.ref`, `Cls.*`, `*.*` …) answers
+many: every reference it covers, in every model loaded with the meta-model, each with the
+match rule (name delimiter) and target class of *that* reference. -/
+
+/-- **Histories.** Whatever references a provider object served before — other match rules
+with other delimiters, other target classes, other models — its answer to a reference is
+the answer of the query for that reference alone, the name being split at the delimiter of
+the reference's own match rule (`Provider.delim`). -/
+theorem C11_history (p : Provider) (n : Nat) (hist : List (Heap × Call)) :
+    p.run n hist = hist.map (fun hc => p.alone hc.1 n hc.2) := by
+  induction hist with
+  | nil => rfl
+  | cons hc rest ih =>
+    obtain ⟨H, c⟩ := hc
+    simp only [Provider.run, Provider.call, List.map_cons, Provider.alone]
+    rw [ih]
+    rfl
+
+/-- **The delimiter** is the one given to the provider, else the `split` parameter of the
+match rule of the reference at hand, else `.` — a function of the provider's creation
+arguments and the reference only. -/
+theorem C11_delim (p : Provider) (c : Call) :
+    (∀ s, p.split = some s → p.delim c = s) ∧
+    (p.split = none → ∀ s, c.ruleSplit = some s → p.delim c = s) ∧
+    (p.split = none → c.ruleSplit = none → p.delim c = ".") := by
+  refine ⟨?_, ?_, ?_⟩
+  · intro s h; simp [Provider.delim, h]
+  · intro h s hs; simp [Provider.delim, h, hs]
+  · intro h hs; simp [Provider.delim, h, hs]
+
+/-- **Soundness and completeness at every position of every history.**  The answer to the
+reference `c` (in model `H`) after the history `pre` (and before `post`) is: a match ⇒ an
+object reached by one expansion from the name parts of `c` split at `c`'s delimiter, all parts
+consumed, conforming to `c`'s class, the named objects carrying the parts; "unknown" ⇒ no
+expansion of any alternative ends in a match. -/
+theorem C11_provider (p : Provider) (n : Nat) (pre post : List (Heap × Call)) (H : Heap) (c : Call) :
+    ∃ r, (p.run n (pre ++ (H, c) :: post))[pre.length]? = some r ∧
+      (∀ s, r = .found s →
+        (∃ q ∈ p.paths, Exp H q true (start c.o (splitName c.text (p.delim c))) s) ∧ s.ns = [] ∧
+        confOpt H s.o c.cls = true ∧ NamedBy H s.path (splitName c.text (p.delim c))) ∧
+      (∀ W, (p.paths.flatMap E.ids).Nodup → r = .cont W →
+        ∀ q ∈ p.paths, ¬ ∃ t, Exp H q true (start c.o (splitName c.text (p.delim c))) t ∧
+          IsMatch H c.cls t) := by
+  refine ⟨p.alone H n c, ?_, ?_, ?_⟩
+  · rw [C11_history]
+    simp
+  · intro s hs
+    exact C11_sound H n p.paths c.o _ c.cls s hs
+  · intro W hid hW
+    exact C11_complete H n p.paths c.o _ c.cls W hid hW
+
 /-! ## non-vacuity -/
 
 /-- root 0 with `a = [1, 2, 3]`; 1 = `A x`, 2 = `B x`, 3 = `A y` with `a = [4]`, `r = 2`;
@@ -213,5 +268,27 @@ example : fuelBound [0, 1, 2, 3, 4] ["z"]
 
 example : ∀ o a, exH.attr o a ≠ none := by
   intro o a; simp only [exH]; split <;> (try split) <;> (try split) <;> (try split) <;> simp
+
+/-- one provider (`a.a`, no delimiter of its own) serving three references in a row: match rule
+without `split` parameter (`y.x`), match rule with `split='::'` (`y::x`), and a `::` rule given a
+dotted name (one part `y.x`, which names nothing) -/
+def exP : Provider := ⟨[.cat (.atom 0 (.nav "a" .consume)) (.atom 1 (.nav "a" .consume))], none, false⟩
+
+example : exP.delim ⟨0, "y::x", some "::", none⟩ = "::" ∧ exP.delim ⟨0, "y.x", none, none⟩ = "." ∧
+    (⟨exP.paths, some "/", false⟩ : Provider).delim ⟨0, "y::x", some "::", none⟩ = "/" := by decide
+
+/-- (the kernel does not evaluate `String.splitOn`; the three splits are checked by evaluation
+in the `#guard`s below and enter the example as hypotheses) -/
+example (h1 : splitName "y.x" "." = ["y", "x"]) (h2 : splitName "y::x" "::" = ["y", "x"])
+    (h3 : splitName "y.x" "::" = ["y.x"]) :
+    (exP.run 6 [(exH, ⟨0, "y.x", none, none⟩), (exH, ⟨0, "y::x", some "::", none⟩),
+      (exH, ⟨0, "y.x", some "::", none⟩), (exH, ⟨0, "y.x", none, some "B"⟩)]).map
+      (fun r => match r with | .found s => some s.o | _ => none) = [some 4, some 4, none, some 4] := by
+  simp only [Provider.run, Provider.call, Provider.delim, exP, h1, h2, h3]
+  decide
+
+#guard splitName "y.x" "." == ["y", "x"]
+#guard splitName "y::x" "::" == ["y", "x"]
+#guard splitName "y.x" "::" == ["y.x"]
 
 end Rrel
